@@ -244,11 +244,9 @@ class Cons:
                 problems.append("result of %s is never matched before returning" % ", ".join(sorted(w for _, _, w in tracked)))
             by_net.setdefault(net, []).append((b, st_in))
         # states cut by the bound
-        for b, sts in states.items():
-            for net, _ in sts:
-                if abs(net) >= LIM:
-                    problems.append("net exemptions grow without bound (|N| >= %d) at %s" % (LIM, body.loc(body.blocks[b].term.line)))
-                    break
+        if any(abs(net) >= LIM for sts in states.values() for net, _ in sts):
+            problems.append("net exemptions grow without bound (|N| >= %d on some path)" % LIM)
+        problems = list(dict.fromkeys(problems))
         exits_desc = {}
         allpreds = parent["__allpreds__"]
         for net, lst in by_net.items():
@@ -381,6 +379,8 @@ def r1(ctx):
             rule.ok("Handler::%s" % name, "N = %+d on every path (%d event sites%s)" % (
                 nets[0], s["events"], ", %d infeasible edge(s) pruned by remove_by_nonce's postcondition" % s["infeasible"] if s["infeasible"] else ""))
             continue
+        if any("not neutral" in pr or "without bound" in pr for pr in s["problems"]):
+            continue    # the loop report above already names the defect; exit values are artefacts of the unrolling bound
         # path-dependent: report every exit whose net differs from the reference value
         ref = 0 if (want0 or 0 in nets) else s["value"]
         for net in nets:
